@@ -443,7 +443,14 @@ def make_interp(kind, site):
                 return False
             self.injected = True
             i = st["order"][0]
-            build_case(c.add_case(i), i)
+            if sum(map(ord, st["id"])) % 2:
+                # asked for a second time while the first builder is still open (no outputs set yet)
+                first = c.add_case(i)
+                COUNT["case-twice-while-open"] = COUNT.get("case-twice-while-open", 0) + 1
+                expect(lambda: c.add_case(i), ConditionalError, "add_case(twice, first still open)")
+                build_case(first, i)
+            else:
+                build_case(c.add_case(i), i)
             expect(lambda: c.add_case(i), ConditionalError, "add_case(twice)")
 
         def inj_ctx_exit_unbuilt(self, where, st, c=None, build_case=None, **kw):
